@@ -87,10 +87,20 @@ type Scenario struct {
 var labelNames = []string{"job", "env"}
 var labelValues = []string{"a", "b", "c"}
 
+// longPad: in some scenarios every selector starts with the same long matcher that excludes nothing, so that
+// different questions about one metric agree in their first ~150 characters (generated rules and alternations
+// over many instances look like that)
+var longPad bool
+
+var padMatcher = `instance!~"` + strings.Repeat("excluded-host-", 10) + `[0-9]+"`
+
 // selector vocabulary
 func drawSelector(rt *rapid.T, nm int) string {
 	m := rapid.IntRange(0, nm-1).Draw(rt, "metric")
 	var ms []string
+	if longPad {
+		ms = append(ms, padMatcher)
+	}
 	n := rapid.IntRange(0, 2).Draw(rt, "nmatchers")
 	used := map[string]bool{}
 	for i := 0; i < n; i++ {
@@ -159,6 +169,7 @@ func draw(rt *rapid.T) Scenario {
 	sc.StepM = []int{5, 5, 5, 10, 7}[rapid.IntRange(0, 4).Draw(rt, "step")]
 	sc.OffsetNs = rapid.Int64Range(0, int64(2*time.Hour)).Draw(rt, "offset")
 	nm := rapid.IntRange(1, 4).Draw(rt, "nmetrics")
+	longPad = rapid.IntRange(0, 5).Draw(rt, "longpad") == 0
 	window := int64(sc.LookbackH) * 3600
 	for i := 0; i < nm; i++ {
 		ms := MetricSpec{Shape: rapid.IntRange(0, 7).Draw(rt, "shape"), NSer: rapid.IntRange(1, 3).Draw(rt, "nser")}
